@@ -287,7 +287,7 @@ pub fn fam_write_fail(b: &Base, out: &mut Vec<CaseSpec>) {
 pub fn fam_random(b: &Base, rng: &mut Rng, count: usize, max_faults: u64, out: &mut Vec<CaseSpec>) {
     // a percentage loss over tens of thousands of datagrams is a different experiment (hours of virtual time,
     // millions of events); long transfers get point faults only
-    let allow_loss = b.spec.nblocks() <= 2000;
+    let allow_loss = b.spec.nblocks() <= 2000 && b.spec.w <= 64;
     for c in 0..count {
         let nf = rng.range(1, max_faults);
         let mut rules = Vec::new();
